@@ -101,9 +101,12 @@ Definition chk_trace (t : tx) (tr : etrace) (o : eobs) : bool :=
   | _, _ => false
   end.
 
-Definition check (c : fld * N * tx * list oent * obs) : bool :=
-  let '(chain, chain_n, t, tbl, Obs vd gh eo) := c in
-  let ch := fb chain in
+(* configuration (ChainId, OriginalChainId, Proposal001Block), height, transaction, oracle, observation *)
+Definition check (c : (fld * fld * N * N) * tx * list oent * obs) : bool :=
+  let '((cid, orig, fork, height), t, tbl, Obs vd gh eo) := c in
+  let cfg := mkCfg (fb cid) (fb orig) fork in
+  let ch := chain_id_at cfg height in
+  let chain_n := chain_n_at cfg height in
   let rec_ := recover_t tbl in
   let ver_ := verify_t tbl in
   if (t_type t =? eth_type)%Z then
@@ -117,8 +120,8 @@ Definition check (c : fld * N * tx * list oent * obs) : bool :=
     match eo with ENone => true | _ => false end.
 
 (* [check] evaluates exactly the model's [verify] (digest and trace shared instead of recomputed) *)
-Lemma check_uses_verify : forall tbl ch chain_n t,
-  verify sha256 keccak256 (recover_t tbl) (verify_t tbl) ch chain_n t =
-  if (t_type t =? eth_type)%Z then verdict_of_trace (eth_trace keccak256 (recover_t tbl) chain_n t)
-  else verify_native_h keccak256 (recover_t tbl) (verify_t tbl) (gen_hash sha256 t) ch t.
+Lemma check_uses_verify : forall tbl cfg height t,
+  verify_at sha256 keccak256 (recover_t tbl) (verify_t tbl) cfg height t =
+  if (t_type t =? eth_type)%Z then verdict_of_trace (eth_trace keccak256 (recover_t tbl) (chain_n_at cfg height) t)
+  else verify_native_h keccak256 (recover_t tbl) (verify_t tbl) (gen_hash sha256 t) (chain_id_at cfg height) t.
 Proof. reflexivity. Qed.
